@@ -1524,11 +1524,18 @@ impl<B> StreamRef<B> {
         let pushed = {
             let mut stream = me.store.resolve(self.opaque.key);
 
-            let frame = crate::server::Peer::convert_push_message(stream.id, promised_id, request)?;
-
-            actions
-                .send
-                .send_push_promise(frame, send_buffer, &mut stream, &mut actions.task)
+            // A request that cannot be promised must take the same way out
+            // as a refused one: the reserved child is removed below.
+            crate::server::Peer::convert_push_message(stream.id, promised_id, request).and_then(
+                |frame| {
+                    actions.send.send_push_promise(
+                        frame,
+                        send_buffer,
+                        &mut stream,
+                        &mut actions.task,
+                    )
+                },
+            )
         };
 
         if let Err(err) = pushed {
